@@ -106,3 +106,18 @@ Section Sort.
     - eapply perm_trans; [apply Permutation_sym, P1|exact P2].
   Qed.
 End Sort.
+
+(* sorting commutes with a key projection that the comparator factors through *)
+Section MapSort.
+  Context {A B : Type} (ltbA : A -> A -> bool) (ltbB : B -> B -> bool) (g : A -> B).
+  Hypothesis factor : forall a b, ltbA a b = ltbB (g a) (g b).
+
+  Lemma map_insert_front x l : map g (insert_front ltbA x l) = insert_front ltbB (g x) (map g l).
+  Proof.
+    induction l as [|y r IH]; simpl; [reflexivity|].
+    rewrite factor. destruct (ltbB (g y) (g x)); simpl; [now rewrite IH|reflexivity].
+  Qed.
+
+  Lemma map_stable_sort l : map g (stable_sort ltbA l) = stable_sort ltbB (map g l).
+  Proof. induction l as [|x r IH]; simpl; [reflexivity|]. now rewrite map_insert_front, IH. Qed.
+End MapSort.
